@@ -313,3 +313,12 @@ func writeYAML(b *strings.Builder, v any, ind int, o YAMLOpts) {
 		b.WriteString(pad + s + "\n")
 	}
 }
+
+// ScalarText is the unquoted document text of a non-string scalar (what an environment variable would hold).
+func ScalarText(v any) (string, bool) {
+	switch v.(type) {
+	case bool, int, int64, uint32, uint64, float64:
+		return scalarYAML(v, YAMLOpts{})
+	}
+	return "", false
+}
